@@ -94,6 +94,15 @@ func (w *world) canon(cnt simCounters) string {
 		for _, id := range sortedDriverIDs(n.drivers) {
 			d := n.drivers[id]
 			if !d.live() {
+				if k := len(d.updCh); k > 0 && r.state == Leader && r.ldr.startIndex == d.repl.ldrStartIndex {
+					fmt.Fprintf(&sb, "d%d(ended", id)
+					for i := 0; i < k; i++ {
+						u := <-d.updCh
+						d.updCh <- u
+						fmt.Fprintf(&sb, " up(%s)", canonUpdate(u.update))
+					}
+					sb.WriteString(") ")
+				}
 				continue
 			}
 			rp := d.repl
